@@ -676,6 +676,9 @@ impl Kernel {
     }
 
     fn draw_outcome(&mut self, fd: i32, max: usize, data: bool) -> Outcome {
+        // One request transfers at most MAX_RW_COUNT bytes (INT_MAX rounded
+        // down to a page), however much it describes.
+        let max = max.min(0x7fff_f000);
         if let Some(q) = self.counts.get_mut(&fd) {
             if let Some(c) = q.pop_front() {
                 if c < 0 || (c as usize) < max {
@@ -1127,8 +1130,13 @@ impl Kernel {
                                     break;
                                 }
                                 let take = iov.len.min(left);
-                                if let Some(d) = self.get("vectored buffer", iov.base, take, name) {
-                                    taken.extend_from_slice(&d);
+                                // Contents are recorded up to 1 MiB per request
+                                // (huge transfers are judged by their sizes).
+                                let keep = take.min((1usize << 20).saturating_sub(taken.len()));
+                                if keep > 0 {
+                                    if let Some(d) = self.get("vectored buffer", iov.base, keep, name) {
+                                        taken.extend_from_slice(&d);
+                                    }
                                 }
                                 left -= take;
                             }
